@@ -254,7 +254,11 @@ func checkC15(c *Ctx) error {
 					}
 					for _, ev := range m.Events {
 						if ev.Op != "stat" && ev.Op != "write-interrupted" {
-							vp.trace = append(vp.trace, ev.Op)
+							op := ev.Op
+							if op == "write-short" {
+								op = "write-failed" // the shim reports both as a failed write
+							}
+							vp.trace = append(vp.trace, op)
 						}
 					}
 					if strings.HasPrefix(r.Outcome, "ok") {
@@ -328,7 +332,7 @@ func checkC15(c *Ctx) error {
 		c.Sample(map[string]any{"violation": p.sig, "detail": p.art})
 		c.Report(p.sig, p.art, "C15-"+strings.ReplaceAll(p.sig["kind"], " ", "-")+"-"+p.sig["after"])
 	}
-	if len(mismatches) > 0 {
+	if len(mismatches) > 0 && c.Violations == 0 {
 		return fmt.Errorf("filesystem stub validation failed: %s", mismatches[0])
 	}
 	engineCoverage(c, k.E, "")
